@@ -688,6 +688,83 @@ func runC02(c *core.Ctx) core.Meta {
 		}
 	}
 
+	// ---------------- R02.7 per-CU caches do not outlive a kernel ----------------
+	st7 := c.Rule("R02.7", "the per-CU L1 caches are not coherent with each other, so data written by one compute unit in a kernel is visible to another compute unit in the next kernel only if the L1 caches are invalidated in between (they drop every line on any flush request): the kernel-launch handling of the driver or of the command processor reaches the construction of a cache flush request (protocol.NewFlushReq in the driver, cache.FlushReqBuilder.Build in the command processor); emulation has no caches, so a stale L1 hit makes the two modes differ", 1)
+	{
+		buildsFlush := func(fn *ssa.Function) bool {
+			for _, b := range fn.Blocks {
+				for _, in := range b.Instrs {
+					f := core.CalleeFunc(in)
+					if f == nil {
+						continue
+					}
+					if f.Name() == "NewFlushReq" && f.Pkg() != nil && strings.HasSuffix(f.Pkg().Path(), "amd/protocol") {
+						return true
+					}
+					if f.Name() == "Build" && f.Signature().Recv() != nil && strings.HasSuffix(f.Signature().Recv().Type().String(), "mem/cache.FlushReqBuilder") {
+						return true
+					}
+				}
+			}
+			return false
+		}
+		reach := func(root *ssa.Function) bool {
+			seen := map[*ssa.Function]bool{}
+			var walk func(f *ssa.Function, d int) bool
+			walk = func(f *ssa.Function, d int) bool {
+				if f == nil || seen[f] || d > 6 || len(f.Blocks) == 0 {
+					return false
+				}
+				seen[f] = true
+				if buildsFlush(f) {
+					return true
+				}
+				for _, b := range f.Blocks {
+					for _, in := range b.Instrs {
+						if cc := core.CallOf(in); cc != nil {
+							if cal := cc.StaticCallee(); cal != nil && cal.Pkg == f.Pkg && walk(cal, d+1) {
+								return true
+							}
+						}
+					}
+				}
+				return false
+			}
+			return walk(root, 0)
+		}
+		st7.Instances++
+		okI := false
+		nRoots := 0
+		for _, r := range []struct{ pkg, name string }{
+			{cpPkg, "cpMiddleware.processLaunchKernelReq"},
+			{driverPkg, "Driver.processLaunchKernelCommand"},
+			{driverPkg, "Driver.processUnifiedMultiGPULaunchKernelCommand"},
+		} {
+			fn := c.MustFunc("R02.7", r.pkg, r.name)
+			if fn == nil {
+				continue
+			}
+			nRoots++
+			c.MarkAnalysed(fn)
+			if reach(fn) {
+				okI = true
+			}
+		}
+		// positive control: the memory-copy path does build flush requests
+		ctl := false
+		if fn := c.SSAFunc(cpPkg, "cpMiddleware.processFlushReq"); fn != nil {
+			ctl = reach(fn)
+		}
+		if !ctl {
+			c.Report(core.Finding{Rule: "R02.7", Kind: "undecided", Pkg: cpPkg, Func: "cpMiddleware.processFlushReq", Detail: "control", Msg: "control: cpMiddleware.processFlushReq is not recognised as building a cache flush request, so the rule cannot recognise one on the launch path either"})
+		}
+		st7.Ob(okI)
+		st7.Sample("kernel launch handling (driver, command processor) reaches a cache flush request: %v; control processFlushReq: %v", okI, ctl)
+		if !okI {
+			c.Report(core.Finding{Rule: "R02.7", Pkg: cpPkg, Func: "cpMiddleware.processLaunchKernelReq", Detail: "l1-not-invalidated-between-kernels", Msg: "nothing in the kernel launch path of the driver or the command processor flushes the per-CU L1 caches: a compute unit that read a line in one kernel gets a stale hit in the next kernel after another compute unit rewrote the line (caches are flushed only for memory copies that touch dirty buffers); bitonicsort -timing -verify fails, the emulator passes"})
+		}
+	}
+
 	// ---------------- R02.5 timing-only wait counters stay balanced ----------------
 	checkOutstandingCounters(c, pcu, prov, "R02.5")
 
